@@ -493,8 +493,9 @@ def point_to_point(
         cost = None
         trajectory_constraints = None
 
-    # Figure out the parameters to use, if any
-    params = sys.params if params is None else params
+    # Figure out the parameters to use, if any (as in `sys.dynamics`, values
+    # passed in the call override the values stored in the system)
+    params = sys.params if params is None else {**sys.params, **params}
 
     #
     # Map the initial and final conditions to flat output conditions
@@ -829,8 +830,9 @@ def solve_flat_optimal(
     if ncoefs <= sys.nstates + sys.ninputs:
         raise ValueError("basis set is too small")
 
-    # Figure out the parameters to use, if any
-    params = sys.params if params is None else params
+    # Figure out the parameters to use, if any (as in `sys.dynamics`, values
+    # passed in the call override the values stored in the system)
+    params = sys.params if params is None else {**sys.params, **params}
 
     #
     # Map the initial and conditions to flat output conditions
